@@ -21,7 +21,11 @@ def shapes(tier):
 
 
 def to_case(hist, bid):
-    return dict(id=bid, s=hist[0], steps=[1])
+    # how the caller holds the octet strings, and what the encoder went through before, are dimensions of the replay (the
+    # layout of the file written does not depend on them): chosen from the case's id
+    import zlib
+    z = zlib.crc32(bid.encode())
+    return dict(id=bid, s=hist[0], steps=[1], mem="blob" if z % 3 == 0 else "", pre="failed" if (z // 3) % 4 == 0 else "")
 
 
 CL = {"C14": {("C14", "decoding_fails"), ("C14", "round_trip")},
